@@ -80,15 +80,15 @@ class RefField:
         if self.kind == 'bin':
             if a == 0:
                 raise ZeroDivisionError
-            # a^(2^n - 2) by square-and-multiply (definition of the inverse in a field of order 2^n)
-            e = (1 << self.n) - 2
-            r, b = 1, a
-            while e:
-                if e & 1:
-                    r = self.mul(r, b)
-                b = self.mul(b, b)
-                e >>= 1
-            return r
+            # extended Euclid on binary polynomials: invariant g1*a = u, g2*a = v (mod f)
+            u, v, g1, g2 = a, self.fint, 1, 0
+            while u != 1:
+                j = u.bit_length() - v.bit_length()
+                if j < 0:
+                    u, v, g1, g2, j = v, u, g2, g1, -j
+                u ^= v << j
+                g1 ^= g2 << j
+            return self._bred(g1)
         return R.pto_int(self.E.inv(self._t(a)), self.p)
 
 
